@@ -123,6 +123,8 @@ func catBytes(parts ...[]byte) []byte {
 
 func runC03(r *vhlib.Run) {
 	rng := r.Rng
+	// handleDegenerateCodes / ReadPrefixCodes dispatch against their model (Bzip2/Degenerate.v)
+	runWBZDEGEN(r)
 	n := 220
 	if !r.Quick() {
 		n = 6000
